@@ -37,6 +37,9 @@ def run(ctx, sess):
     from .common import relay as _relay
     from . import c09 as _src_c09
     _relay(ctx, sess, _src_c09.run, {'C09.7': 'C15.12'}, minimum=1)
+    ctx.rule('C15.14', 'the summary mean a constant block is rebuilt from is the stored code: the sample converter that feeds the summaries rescales nothing, whatever the fixed-point position (shared with C02.10) - reconstruction rounds the mean back to the sample value')
+    from . import c02 as _src_c02
+    _relay(ctx, sess, _src_c02.run, {'C02.10': 'C15.14'}, minimum=1)
     try:
         const_reference_rule(ctx, P)
     except AnalysisBroken as ex:
